@@ -4,7 +4,9 @@
 #ifndef VPD_REQDATA
 #define VPD_REQDATA 103        /* evdns_request_len() for a 1-character name without EDNS: 96 + 1 + 2 + 4 */
 #endif
-struct vpd_request_obj { struct request r; u8 data[VPD_REQDATA]; } __attribute__((packed));
+/* (not packed: cbmc turns member accesses of packed structures into byte operations; the object is therefore up to
+ *  7 bytes larger than requested -- memory safety of the query bytes is C36's subject) */
+struct vpd_request_obj { struct request r; u8 data[VPD_REQDATA]; };
 int vpd_alloc_calls;
 static void *vpd_malloc(size_t sz)
 {
@@ -14,7 +16,7 @@ static void *vpd_malloc(size_t sz)
 	if (vp_alloc_should_fail()) return NULL;
 	if (sz == sizeof(struct evdns_base)) q = malloc(sizeof(struct evdns_base));
 	else if (sz == sizeof(struct nameserver)) q = malloc(sizeof(struct nameserver));
-	else if (sz == sizeof(struct vpd_request_obj)) q = malloc(sizeof(struct vpd_request_obj));
+	else if (sz == sizeof(struct request) + VPD_REQDATA) q = malloc(sizeof(struct vpd_request_obj));
 	else if (sz == sizeof(struct evdns_request)) q = malloc(sizeof(struct evdns_request));
 	else if (sz == sizeof(struct search_state)) q = malloc(sizeof(struct search_state));
 	else if (sz == sizeof(struct tcp_connection)) q = malloc(sizeof(struct tcp_connection));
@@ -24,18 +26,40 @@ static void *vpd_malloc(size_t sz)
 	__CPROVER_assume(q != NULL);
 	return q;
 }
+#ifdef VP_CBMC
+static void *vpd_memset(void *p, int c, size_t n)
+{
+	if (c == 0 && n == sizeof(struct evdns_base)) { static const struct evdns_base z; *(struct evdns_base *)p = z; }
+	else if (c == 0 && n == sizeof(struct nameserver)) { static const struct nameserver z; *(struct nameserver *)p = z; }
+	else if (c == 0 && n == sizeof(struct request)) { static const struct request z; *(struct request *)p = z; }
+	else if (c == 0 && n == sizeof(struct search_state)) { static const struct search_state z; *(struct search_state *)p = z; }
+	else if (c == 0 && n == sizeof(struct reply)) { static const struct reply z; *(struct reply *)p = z; }
+	else if (c == 0 && n == sizeof(struct sockaddr_in)) { static const struct sockaddr_in z; *(struct sockaddr_in *)p = z; }
+	else if (c == 0 && n == sizeof(struct sockaddr_in6)) { static const struct sockaddr_in6 z; *(struct sockaddr_in6 *)p = z; }
+	else if (c == 0 && n == sizeof(struct evutil_addrinfo)) { static const struct evutil_addrinfo z; *(struct evutil_addrinfo *)p = z; }
+	else { size_t i; for (i = 0; i < n; i++) ((unsigned char *)p)[i] = (unsigned char)c; }
+	return p;
+}
+#endif
+/* calloc: cbmc types calloc(1, sizeof(T)) as a byte array, so the typed cases are malloc(sizeof(T)) + a typed zero */
 static void *vpd_calloc(size_t n, size_t sz)
 {
 	void *q;
 	if (n == 0 || sz == 0) return NULL;
 	vpd_alloc_calls++; vp_alloc_calls++;
 	if (vp_alloc_should_fail()) return NULL;
-	if (n == 1 && sz == sizeof(struct evdns_request)) q = calloc(1, sizeof(struct evdns_request));
-	else if (n == 1 && sz == sizeof(struct evdns_getaddrinfo_request)) q = calloc(1, sizeof(struct evdns_getaddrinfo_request));
-	else if (n == 1 && sz == sizeof(struct evdns_cache)) q = calloc(1, sizeof(struct evdns_cache));
-	else if (n == 1 && sz == sizeof(struct request *)) q = calloc(1, sizeof(struct request *));       /* req_heads, max-inflight <= 5 */
-	else if (n == 13 && sz == sizeof(struct request *)) q = calloc(13, sizeof(struct request *));     /* req_heads of evdns_base_new */
-	else q = calloc(n, sz);
+	if (n == 1 && sz == sizeof(struct evdns_request)) {
+		static const struct evdns_request z; q = malloc(sizeof(struct evdns_request)); __CPROVER_assume(q != NULL); *(struct evdns_request *)q = z;
+	} else if (n == 1 && sz == sizeof(struct evdns_getaddrinfo_request)) {
+		static const struct evdns_getaddrinfo_request z; q = malloc(sizeof(struct evdns_getaddrinfo_request)); __CPROVER_assume(q != NULL); *(struct evdns_getaddrinfo_request *)q = z;
+	} else if (n == 1 && sz == sizeof(struct evdns_cache)) {
+		static const struct evdns_cache z; q = malloc(sizeof(struct evdns_cache)); __CPROVER_assume(q != NULL); *(struct evdns_cache *)q = z;
+	} else if (n == 1 && sz == sizeof(struct request *)) {          /* req_heads, max-inflight <= 5 */
+		q = malloc(1 * sizeof(struct request *)); __CPROVER_assume(q != NULL); ((struct request **)q)[0] = NULL;
+	} else if (n == 13 && sz == sizeof(struct request *)) {         /* req_heads of evdns_base_new (max-inflight 64) */
+		int i; q = malloc(13 * sizeof(struct request *)); __CPROVER_assume(q != NULL);
+		for (i = 0; i < 13; i++) ((struct request **)q)[i] = NULL;
+	} else q = calloc(n, sz);
 	__CPROVER_assume(q != NULL);
 	return q;
 }
